@@ -14,6 +14,13 @@ def run(ck):
     ck.trace("string-calls", "Trace_C20", "Trace.cfg", t,
              what="h3ToString with buffer sizes 0..32 (+guards), every bit position / leading-zero length, cells, edges, vertexes, "
                   "mutated and random words; stringToH3 round trips and arbitrary short byte strings")
+    tc = os.path.join(ck.tdir, "c20-threads.ndjson")
+    d = vlib.run_driver(drv, ["threads", ck.tier, ck.seed, tc])
+    if d["rc"] != 0:
+        raise vlib.InfraError("driver failed rc=%s %s" % (d["rc"], d["err"][-1500:]))
+    ck.trace("string-concurrent", "Trace_C20", "Trace.cfg", tc, nchunks=16, balance=True,
+             what="8 threads formatting and parsing back their own words (cells, short words, random words) into their own buffers at "
+                  "the same time: the string of a value does not depend on what other callers are doing")
     ck.ev.assumptions += ["TLC 1.8 / JVM", "ndjson encodings", "strings whose first character is a sign, white space or that "
                           "carry trailing text are unconstrained on success (the property only speaks about text that does "
                           "not start with a hexadecimal number and about h3ToString output)"]
